@@ -52,7 +52,16 @@ func c09Gen(rng *rand.Rand) c09Prog {
 	k := int64(2 + rng.Intn(4))
 	lim := int64(1 + rng.Intn(6))
 	thr := int64(rng.Intn(12))
-	switch rng.Intn(6) {
+	switch rng.Intn(9) {
+	case 6: // block spawned inside an if body; the parent then assigns the enclosing variable
+		src := fmt.Sprintf("@ GET /t {\n  $ a = %d\n  $ f = async {\n    > 0\n  }\n  if a > 0 {\n    f = async {\n      $ i = 0\n      while i < %d {\n        i = i + 1\n      }\n      > a * %d\n    }\n    a = a + 100\n  }\n  a = a + 1000\n  $ r = await f\n  > {r: r, a: a}\n}\n", a, 50+lim*40, k)
+		return c09Prog{src, map[string]interface{}{"r": a * k, "a": a + 1100}, "spawn-in-if"}
+	case 7: // blocks spawned in a loop body, each sees the values of its own iteration
+		src := fmt.Sprintf("@ GET /t {\n  $ base = %d\n  $ fs = []\n  for i in [1, 2, 3] {\n    $ f = async {\n      $ j = 0\n      while j < %d {\n        j = j + 1\n      }\n      > base * 10 + i\n    }\n    fs = fs + [f]\n    base = base + 1\n  }\n  base = base + 500\n  $ f0 = fs[0]\n  $ f1 = fs[1]\n  $ f2 = fs[2]\n  $ r2 = await f2\n  $ r0 = await f0\n  $ r1 = await f1\n  > {r0: r0, r1: r1, r2: r2, base: base}\n}\n", a, 30+lim*30)
+		return c09Prog{src, map[string]interface{}{"r0": a*10 + 1, "r1": (a+1)*10 + 2, "r2": (a+2)*10 + 3, "base": a + 503}, "spawn-in-loop"}
+	case 8: // block spawned inside a while body nested in an if; the enclosing counter moves on
+		src := fmt.Sprintf("@ GET /t {\n  $ n = %d\n  $ w = 0\n  $ f = async {\n    > 0\n  }\n  if n > 0 {\n    while w < 2 {\n      w = w + 1\n      if w == 1 {\n        f = async {\n          $ j = 0\n          while j < %d {\n            j = j + 1\n          }\n          > n * 100 + w\n        }\n      }\n      n = n + 7\n    }\n  }\n  > {r: await f, n: n, w: w}\n}\n", a, 40+lim*30)
+		return c09Prog{src, map[string]interface{}{"r": a*100 + 1, "n": a + 14, "w": int64(2)}, "spawn-in-nested-while"}
 	case 0: // arithmetic over captured values; parent reassigns the captured variable afterwards
 		src := fmt.Sprintf("@ GET /t {\n  $ a = %d\n  $ b = %d\n  $ f = async {\n    > a * %d + b\n  }\n  $ c = a + b\n  $ r = await f\n  > {r: r, c: c}\n}\n", a, b, k)
 		return c09Prog{src, map[string]interface{}{"r": a*k + b, "c": a + b}, "arith"}
@@ -318,6 +327,11 @@ func c09Futures(w *mon.W, rng *rand.Rand, idx int) {
 // (d) combinators with gated futures
 func c09Combinators(w *mon.W, rng *rand.Rand, idx int) {
 	n := 2 + rng.Intn(4)
+	if idx%3 == 0 {
+		// many inputs still pending when the first one settles: combinators that cancel or
+		// collect the others do that work concurrently with settling their own result
+		n = []int{16, 64, 400}[rng.Intn(3)]
+	}
 	mk := func() ([]*interpreter.Future, []chan struct{}) {
 		fs := make([]*interpreter.Future, n)
 		gates := make([]chan struct{}, n)
@@ -352,12 +366,16 @@ func c09Combinators(w *mon.W, rng *rand.Rand, idx int) {
 				case <-waitFor.Done():
 				case <-time.After(10 * time.Second):
 				}
-			} else {
+			} else if n <= 8 {
 				time.Sleep(time.Millisecond)
 			}
 		}
 	}
-	wit := map[string]interface{}{"outcomes_resolve": outcome, "release_order": order}
+	wit := map[string]interface{}{"inputs": n, "outcomes_resolve": outcome, "release_order": order}
+	if n > 8 {
+		wit = map[string]interface{}{"inputs": n, "first_released": order[0], "first_resolves": outcome[order[0]]}
+	}
+	w.Mark("combinator_input_counts", fmt.Sprint(n))
 	// All: order-preserving all-or-error
 	fs, gates := mk()
 	spawn(fs, gates)
